@@ -24,6 +24,7 @@ const (
 	verifPtMakeDeadline
 	verifPtClockWake
 	verifPtStopClock
+	verifPtDeadlineRead
 	verifPtCount
 )
 
@@ -38,6 +39,7 @@ const (
 	VerifPtMakeDeadline = verifPtMakeDeadline
 	VerifPtClockWake    = verifPtClockWake
 	VerifPtStopClock    = verifPtStopClock
+	VerifPtDeadlineRead = verifPtDeadlineRead
 	VerifPtCount        = verifPtCount
 )
 
